@@ -277,7 +277,10 @@ class RadiRouter:
         """
         if route is not None:
             if isinstance(route, str):
-                route_pattern = self.to_pattern(route)
+                route_pattern, _, filters, _, _ = self.parse_rule(route)
+                if not route_pattern.endswith('*') and self._match(route_pattern, filters) is None:
+                    # nothing is registered under this rule (another rule may share its pattern with other filters)
+                    return
                 route = None
             else:
                 route_pattern = route.pattern
